@@ -389,6 +389,148 @@ fn c19_units(tier: Tier) -> Vec<Unit> {
             restore_regs(ctx);
         },
     ));
+    // ---- the whole 24-bit space at a stride: a cost depends on the area (and on being on-chip RAM) only
+    units.push(Unit::new(
+        "address-stride",
+        16,
+        "every address k x H'100 and k x H'100 + H'FF of the 24-bit space (2 x 65536 addresses), plus in every area the offsets at which on-chip RAM begins and ends in area 7 (each +-1) x 6 kinds x 3 settings in which on-chip RAM, area 0, area 2 and the other areas all cost differently (I/O register addresses excluded as the property says)",
+        move |ctx, chunk| {
+            let settings = [
+                BusRegs { abwcr: 0xff, astcr: 0xfb, wcrh: 0xff, wcrl: 0xcf, drcra: 0xe0 },
+                BusRegs { abwcr: 0x00, astcr: 0xff, wcrh: 0xff, wcrl: 0xff, drcra: 0x00 },
+                BusRegs { abwcr: 0x55, astcr: 0xff, wcrh: 0x1b, wcrl: 0xe4, drcra: 0x20 },
+            ];
+            let (lo, hi) = chunk_range(65536, 16, chunk);
+            let mut addrs: Vec<u32> = (lo as u32..hi as u32).flat_map(|k| [k << 8, (k << 8) + 0xff]).collect();
+            if chunk == 0 {
+                for area in 0..8u32 {
+                    for off in [0x1fbf20u32, 0x1fff1f] {
+                        for d in [-1i32, 0, 1] {
+                            addrs.push(((area << 21) + off).wrapping_add(d as u32));
+                        }
+                    }
+                }
+            }
+            addrs.retain(|a| !(0xfee000..=0xfee0ff).contains(a) && !(0xffff20..=0xffffff).contains(a));
+            for r in settings.iter() {
+                set_regs(ctx, r);
+                for &a in addrs.iter() {
+                    for &k in KINDS.iter() {
+                        c19_eval_current(ctx, r, k, 1, a);
+                    }
+                    if ctx.stop {
+                        restore_regs(ctx);
+                        return;
+                    }
+                }
+            }
+            restore_regs(ctx);
+        },
+    ));
+    // ---- very many register writes between two evaluations (a generation counter that comes round again)
+    units.push(Unit::new(
+        "many-rewrites",
+        6,
+        "settings A in force and costed; then exactly N writes into the bus-controller register block (N in {255, 256, 257, 65535, 65536, 65537, 131072}; fillers: ABWCR toggling / WCRH rewritten with its own value / the two unused registers of the block), the last five of which put settings B in force; then every probe is costed again and must follow B - 3 pairs (A, B) x 2 orders",
+        move |ctx, chunk| {
+            let sets = [
+                BusRegs { abwcr: 0xff, astcr: 0xfb, wcrh: 0xff, wcrl: 0xcf, drcra: 0xe0 },
+                BusRegs { abwcr: 0x00, astcr: 0x00, wcrh: 0x00, wcrl: 0x00, drcra: 0x00 },
+                BusRegs { abwcr: 0x55, astcr: 0xff, wcrh: 0x1b, wcrl: 0xe4, drcra: 0x20 },
+                BusRegs { abwcr: 0x00, astcr: 0xaa, wcrh: 0xe4, wcrl: 0x1b, drcra: 0x00 },
+            ];
+            let pairs = [(0usize, 1usize), (1, 0), (0, 2), (2, 0), (2, 3), (3, 2)];
+            let (ia, ib) = pairs[chunk as usize];
+            let probes: Vec<u32> = (0..8u32).map(|a| (a << 21) + 0x1234).chain([0xffe000u32]).collect();
+            for n in [255u32, 256, 257, 65535, 65536, 65537, 131072] {
+                for filler in 0..3 {
+                    restore_regs(ctx);
+                    let a = sets[ia];
+                    let b = sets[ib];
+                    set_regs(ctx, &a);
+                    for &addr in probes.iter() {
+                        for &k in &['J', 'L', 'M'] {
+                            c19_eval_current(ctx, &a, k, 1, addr);
+                        }
+                    }
+                    for i in 0..n - 5 {
+                        let (reg, v) = match filler {
+                            0 => (ABWCR, if i % 2 == 0 { !a.abwcr } else { a.abwcr }),
+                            1 => (WCRH, a.wcrh),
+                            _ => (0xfee024 + (i % 2), (i & 0xff) as u8),
+                        };
+                        let _ = ctx.m.cpu.bus.write(reg, v);
+                    }
+                    for (reg, v) in [(ABWCR, b.abwcr), (ASTCR, b.astcr), (WCRH, b.wcrh), (WCRL, b.wcrl), (DRCRA, b.drcra)] {
+                        let _ = ctx.m.cpu.bus.write(reg, v);
+                    }
+                    for &addr in probes.iter() {
+                        for &k in &['J', 'L', 'M'] {
+                            if !c19_eval_current(ctx, &b, k, 1, addr) {
+                                if let Some(v) = ctx.st.violations.last_mut() {
+                                    v.case["many_rewrites"] = json!({"from": [a.abwcr, a.astcr, a.wcrh, a.wcrl, a.drcra], "writes": n, "filler": filler});
+                                }
+                            }
+                        }
+                    }
+                    let _ = ctx.m.cpu.bus.write(0xfee024, pristine(0xfee024));
+                    let _ = ctx.m.cpu.bus.write(0xfee025, pristine(0xfee025));
+                    if ctx.stop {
+                        restore_regs(ctx);
+                        return;
+                    }
+                }
+            }
+            restore_regs(ctx);
+        },
+    ));
+    // ---- cycles as instructions issue them: the address that is priced is the address that is accessed
+    units.push(Unit::new(
+        "loads-into-the-address-register",
+        1,
+        "MOV.W / MOV.L loads through @ERs, @(d:16,ERs), @(d:24,ERs) whose destination is (part of) the address register: operand in on-chip RAM / DRAM / vector area x loaded value pointing into each of the other regions and into an unmapped area x code in on-chip RAM / DRAM x 6 bus-controller settings; the charge is the form's cycle mix priced with the closed form at the operand's address (not at the address the register holds afterwards)",
+        move |ctx, _| {
+            ctx.cycles_only = true;
+            ctx.closed_form_cost = true;
+            let settings = super::charge::SETTINGS;
+            let operands = [0xffd040u32, 0x480040, 0x000040];
+            let pointers = [0x00ffd080u32, 0x00480080, 0x00000080, 0x00200000, 0x5a300000];
+            for (name, long, disp) in [("MOV.L @ERs,ERd", true, 0u32), ("MOV.L @(d:16,ERs),ERd", true, 4), ("MOV.L @(d:24,ERs),ERd", true, 4), ("MOV.W @ERs,Rd", false, 0), ("MOV.W @(d:16,ERs),Rd", false, 4), ("MOV.W @(d:24,ERs),Rd", false, 4)] {
+                let row = ctx.isa.row(name);
+                for ra in [0u8, 3, 6] {
+                    let f = Fields { ra, rd: if long { ra } else { ra + 8 }, data: disp, ..Default::default() };
+                    let code = ctx.isa.encode(row, &f);
+                    for &pc in &[0xffc000u32, 0x410000] {
+                        for &op in operands.iter() {
+                            for &ptr in pointers.iter() {
+                                for s in settings.iter() {
+                                    let mut c = Case::new(pc, &code);
+                                    c.er = dom::background_regs();
+                                    c.er[ra as usize] = op - disp;
+                                    c.er[7] = 0x00ffe700;
+                                    if long {
+                                        c.patch_l(op, ptr);
+                                    } else {
+                                        c.patch(op, (ptr >> 24) as u8);
+                                        c.patch(op + 1, (ptr >> 16) as u8);
+                                    }
+                                    c.patch(ABWCR, s[0]);
+                                    c.patch(ASTCR, s[1]);
+                                    c.patch(WCRH, s[2]);
+                                    c.patch(WCRL, s[3]);
+                                    c.patch(DRCRA, s[4]);
+                                    c.check_cycles = true;
+                                    ctx.run(&c);
+                                }
+                            }
+                        }
+                    }
+                }
+            }
+            ctx.cycles_only = false;
+            ctx.closed_form_cost = false;
+        },
+    ));
     units.push(Unit::new(
         "onchip-ram-and-rejects",
         1,
@@ -485,6 +627,33 @@ pub fn replay_c19(ctx: &mut Ctx, case: &Value) -> bool {
         }
     } else {
         set_regs(ctx, &r);
+    }
+    if case["many_rewrites"].is_object() {
+        // settings A costed, N register writes ending in the recorded settings, then the probe
+        let o = &case["many_rewrites"];
+        let fa: Vec<u8> = o["from"].as_array().map(|a| a.iter().map(|x| x.as_u64().unwrap_or(0) as u8).collect()).unwrap_or_default();
+        if fa.len() == 5 {
+            let a = BusRegs { abwcr: fa[0], astcr: fa[1], wcrh: fa[2], wcrl: fa[3], drcra: fa[4] };
+            restore_regs(ctx);
+            set_regs(ctx, &a);
+            for area in 0..8u32 {
+                let _ = ctx.m.cpu.calc_state_with_addr(st_of(kind), 1, (area << 21) + 0x1234);
+            }
+            let nw = o["writes"].as_u64().unwrap_or(5) as u32;
+            let filler = o["filler"].as_u64().unwrap_or(0);
+            for i in 0..nw.saturating_sub(5) {
+                let (reg, v) = match filler {
+                    0 => (ABWCR, if i % 2 == 0 { !a.abwcr } else { a.abwcr }),
+                    1 => (WCRH, a.wcrh),
+                    _ => (0xfee024 + (i % 2), (i & 0xff) as u8),
+                };
+                let _ = ctx.m.cpu.bus.write(reg, v);
+            }
+            for (reg, v) in [(ABWCR, r.abwcr), (ASTCR, r.astcr), (WCRH, r.wcrh), (WCRL, r.wcrl), (DRCRA, r.drcra)] {
+                let _ = ctx.m.cpu.bus.write(reg, v);
+            }
+            println!("settings {:02x?} costed, then {} register writes (filler {}) ending in the settings of this case", fa, nw, filler);
+        }
     }
     if case["other_state"].is_object() {
         let o = &case["other_state"];
